@@ -22,15 +22,17 @@ MANIFEST = dict(
     ref="5.6, 6 C23")
 
 
-def exec_from_case(k, persist="mem", cfg_recv=0):
+def exec_from_case(k, persist="mem", cfg_recv=0, cfg_send=0):
     own = "INI" if k["role"] == "ini" else "ACC"
     peer = "ACC" if k["role"] == "ini" else "INI"
     ex = sc.Exec("C23", role=k["role"], persist=persist, sender=own, target=peer, flags={"enforce": k["enforce"]},
-                 clients=k["clients"], cfg_recv=cfg_recv)
+                 clients=k["clients"], cfg_recv=cfg_recv, cfg_send=cfg_send)
     ex.start()
     sci = peer if k["sci"] == "match" else "EVIL"
     tci = own if k["tci"] == "match" else "OTHER"
-    ex.logon_exchange(hb=k["hb"], seq=(cfg_recv or 1) + k["seqd"], reset=k["reset"], sender=sci, target=tci)
+    # with ResetSeqNumFlag the counterparty restarts at 1 whatever numbers were configured
+    base = 1 if k["reset"] else (cfg_recv or 1)
+    ex.logon_exchange(hb=k["hb"], seq=base + k["seqd"], reset=k["reset"], sender=sci, target=tci)
     # a follow-up application message shows whether the session really is in normal operation
     return ex
 
@@ -54,6 +56,11 @@ def run(ctx):
     rng = random.Random(ctx.seed + 23)
     for k in rng.sample(cases, 60 if ctx.quick else len(cases)):
         execs.append(exec_from_case(k, persist="file", cfg_recv=rng.choice([0, 4])))
+    # sessions started with requested sequence numbers (Session::start arguments), with and without ResetSeqNumFlag
+    for k in cases:
+        if k["sci"] == "match" and k["tci"] == "match" and k["clients"] != ["ELSE"]:
+            cs, cr = rng.choice([(7, 0), (0, 9), (7, 9)])
+            execs.append(exec_from_case(k, cfg_recv=cr, cfg_send=cs))
     # SessionID comparisons on all pairs over a small CompID alphabet
     ex = sc.Exec("C23")
     for s1, t1, s2, t2 in itertools.product(["A", "B", "AB"], repeat=4):
